@@ -446,6 +446,10 @@ func (s *listSubj[T]) DoRead(op Op) string {
 			}
 			return strconv.FormatBool(s.l.Contains(many...))
 		}
+		if a[2] == 5 { // one argument slice shared by all callers (spread): read-only calls only read it
+			sh := sharedArgs(d)
+			return strconv.FormatBool(s.l.Contains(sh[:2+a[1]%(len(sh)-1)]...))
+		}
 		return strconv.FormatBool(s.l.Contains(d.At(a[1]), d.At(a[1]+a[2])))
 	case "IndexOf":
 		return strconv.Itoa(s.l.(indexOfer[T]).IndexOf(d.At(a[1])))
